@@ -24,6 +24,7 @@ var optionalPoints = []string{
 	"event", "rawEvent", "queryEventExpire", "queryEventExpire.afterDrain",
 	"worker.start", "worker.beforeCb", "worker.afterCb", "queryListener.recv",
 	"conn.Publish", "conn.Subscribe", "conn.Close", "handler",
+	"auto.lock", // inserted before every lock of a mutex field "mu" by cmd/autoyield
 }
 
 func roleOf(point string) string {
@@ -64,6 +65,10 @@ func genPatterns(r *rand.Rand, rich bool) []PatSpec {
 		{nil, "model.fixed", []string{"", "mg"}, 1},
 		{[]string{"sub"}, "item.special", []string{"", "1"}, 1},
 		{nil, "a.b", []string{"", "test.model.1"}, 0},
+		// root-level placeholders: a name that starts with a mount path but
+		// matches nothing inside the mount falls back to this pattern
+		{nil, "$p.$q.info", []string{"", "${p}", "g.${q}", "${q}.${p}"}, 1},
+		{[]string{"sub"}, "$y.extra", []string{"", "${y}"}, 2},
 	}
 	n := 2 + r.IntN(4)
 	perm := r.Perm(len(pool))
@@ -100,7 +105,7 @@ func genPatterns(r *rand.Rand, rich bool) []PatSpec {
 	return out
 }
 
-var tokAlphabet = []string{"1", "2", "3", "set", "new", "x"}
+var tokAlphabet = []string{"1", "2", "3", "set", "new", "x", "sub", "item", "deep"}
 
 // instantiate builds a concrete resource name for a pattern.
 func instantiate(r *rand.Rand, full string, small bool) string {
@@ -115,7 +120,7 @@ func instantiate(r *rand.Rand, full string, small bool) string {
 			}
 		case strings.HasPrefix(t, "$"):
 			if small {
-				out = append(out, pick(r, "1", "2"))
+				out = append(out, pick(r, "1", "2", "1", "2", "sub", "item"))
 			} else {
 				out = append(out, pick(r, tokAlphabet...))
 			}
@@ -204,7 +209,7 @@ func (CoreScenario) Gen(r *rand.Rand, prop string) *SvcCase {
 			}
 		}
 	}
-	lifecycle := prop == "C03" || chance(r, 25)
+	lifecycle := prop == "C03" || chance(r, 40)
 	c.Epochs = 1
 	if lifecycle && chance(r, 50) {
 		c.Epochs = 2 + r.IntN(2)
@@ -540,6 +545,9 @@ func (e *Engine) checkQuiescent(ep int) {
 				cls = "duplicate-callback"
 			}
 			e.H.Violate("C02", cls, "", fmt.Sprintf("submission %d (%s %s%s group %q) started %d times at quiescence, expected %d", s.Op.ID, s.Kind, s.Op.Subject, s.Op.RID, s.Group, len(s.Starts), expect))
+			if ep > 0 {
+				e.H.Violate("C03", "guarantee-lost-after-restart", cls, fmt.Sprintf("epoch %d (after a Shutdown/Serve cycle): submission %d (%s %s%s group %q) started %d times at quiescence, expected %d", ep, s.Op.ID, s.Kind, s.Op.Subject, s.Op.RID, s.Group, len(s.Starts), expect))
+			}
 		}
 	}
 }
@@ -550,6 +558,26 @@ func (e *Engine) HookObserver2(point, arg string) {
 	e.HookObserver(point, arg)
 	if e.H.Off {
 		return
+	}
+	switch point {
+	case "runWith.afterAppend":
+		e.Sim.Probe("enqueue onto the registered work item of a busy group")
+	case "worker.wake":
+		if e.Svc != nil && e.Svc.VerifQueueState().QueueNil {
+			e.Sim.Probe("worker woke to a nil queue (closing)")
+		}
+	case "close.beforeLock":
+		if e.Svc != nil && e.Svc.VerifQueueState().QueueLen > 0 {
+			e.Sim.Probe("Shutdown drops work that is queued but not started")
+		}
+		for _, t := range e.Sim.ParkedUnsafe() {
+			if t.Point == "runWith.beforeLock" {
+				e.Sim.Probe("submission parked between started-check and lock while Shutdown closes the queue")
+			}
+			if t.Point == "event" || t.Point == "rawEvent" {
+				e.Sim.Probe("event parked before its publish while Shutdown runs")
+			}
+		}
 	}
 	switch point {
 	case "Shutdown":
